@@ -8,8 +8,8 @@ from .common import add_failure, bump, new_outcome, rat, unrat
 from . import c15_util as U
 
 PROP = "C15"
-PROPS_FILES = ["CogentModel/Props/C15.lean", "CogentModel/Props/C15NJ.lean", "CogentModel/Props/C15UPGMA.lean"]
-LEAN_TARGETS = ["CogentModel.Props.C15", "CogentModel.Props.C15NJ", "CogentModel.Props.C15UPGMA"]
+PROPS_FILES = ["CogentModel/Props/C15.lean", "CogentModel/Props/C15NJ.lean", "CogentModel/Props/C15UPGMA.lean", "CogentModel/Props/C15Spec.lean"]
+LEAN_TARGETS = ["CogentModel.Props.C15", "CogentModel.Props.C15NJ", "CogentModel.Props.C15UPGMA", "CogentModel.Props.C15Spec"]
 DRIVER = "drv_c15"
 TRUSTED = [
     "hand-written models lean/CogentModel/Model/{Distance,NJ,UPGMA}.lean of fast_distance / nj / UPGMA "
